@@ -21,6 +21,7 @@ class Run:
     def __init__(self, kind, cfg_tokens, events, obs, prefix, case):
         self.kind = kind            # 'call' | 'stream'
         self.cfg = kvs(cfg_tokens)
+        events = [t for t in events if not t.startswith('*')]      # '*<k>': unobserved repetitions beforehand
         self.events = events
         self.prefix = prefix
         self.case = case
@@ -95,8 +96,14 @@ class RCase:
                 self.runs.append(Run(ct[0], ct[1:], e.split(), obs, 'r%d.' % j, self))
         elif kind == 'Y':
             evs = parts[3].split()
-            self.runs.append(Run('call', parts[1].split(), [t[2:] for t in evs if t.startswith('A:')], obs, 'A.', self))
-            self.runs.append(Run('call', parts[2].split(), [t[2:] for t in evs if t.startswith('B:')], obs, 'B.', self))
+            for side, cfg_s in (('A', parts[1]), ('B', parts[2])):
+                seg, gen = [], 1
+                for t in [t[2:] for t in evs if t.startswith(side + ':')] + ['!']:
+                    if t == '!':     # the side's run is finished, a fresh run follows (prefix A2. / B2. ...)
+                        self.runs.append(Run('call', cfg_s.split(), seg, obs, '%s%s.' % (side, '' if gen == 1 else gen), self))
+                        seg, gen = [], gen + 1
+                    else:
+                        seg.append(t)
         elif kind == 'W':
             evs = parts[3].split()
             self.runs.append(Run('stream', parts[1].split(), [t[2:] for t in evs if t.startswith('A:')], obs, 'A.', self))
@@ -515,7 +522,7 @@ def mon_c15(c):
     if c.family.startswith('tokio-share'):
         return None      # runs share one InterruptibilityState on purpose: no fresh-graph oracle
     """A later run on the reused graph value = the same run on a fresh graph (harness oracle runs f<j>.)"""
-    for j in range(1, len(c.runs)):
+    for j in range(0, len(c.runs)):
         w = _same_as_fresh(c, 'r%d.' % j, 'f%d.' % j, 'run %d on the reused graph' % j)
         if w:
             return w
@@ -524,8 +531,13 @@ def mon_c15(c):
 
 def mon_c20(c):
     """Each of two interleaved runs = the same run alone on its own graph (harness oracle runs fA./fB.)"""
-    return (_same_as_fresh(c, 'A.', 'fA.', 'run A interleaved with run B') or
-            _same_as_fresh(c, 'B.', 'fB.', 'run B interleaved with run A'))
+    import re as _re
+    pres = sorted(set(m.group(1) for m in (_re.match(r'^([AB][0-9]*\.)T$', t) for t in c.obs) if m))
+    for p in pres or ['A.', 'B.']:
+        w = _same_as_fresh(c, p, 'f' + p, 'run %s interleaved with the other runs' % p[:-1])
+        if w:
+            return w
+    return None
 
 
 def mon_c06_stream(c):
